@@ -414,7 +414,7 @@ ARG_POOL = [0, 1, 2, 3, 4, 5, 6, 'a', 'b', 1.5, 2.25, None]
 # rarer argument kinds, mixed into some runs: empty and longer strings, a negative and a big int, a tuple, bytes
 ARG_EXTRA = ['', 'a longer string, with "quotes"', -1, 10 ** 20, {'$t': [1, 2]}, {'$b': '00ff'},
              # two arguments whose key strings exceed a file name's length and differ only at the very end
-             'P' * 270 + '1', 'P' * 270 + '2', 'dir/with/slashes']
+             'P' * 270 + '1', 'P' * 270 + '2', 'dir/with/slashes', 'BLOCK_SIZE', 'K_max']
 KW_NAMES = ['p', 'q']
 
 
